@@ -1,5 +1,7 @@
 import XalanModel.C19.RArena
 import XalanModel.C19.LedgerProofs
+import XalanModel.C19.ArenaProofs
+import XalanModel.C19.XMapProofs
 /-
 `ReusableArenaAllocator::destroyObject` makes no allocation request (erase, then push_front).
 -/
@@ -69,6 +71,387 @@ theorem destroyObject_reqs (blk slot : Nat) (r : RArena) (l : Ledger) (hh : r.he
           | oom => exact hr
           | ub => exact hr
       · rfl
+
+/-! ### ownership: balanced and failure-contained -/
+
+structure RInv (r : RArena) (l : Ledger) (f : List Nat) (n : Nat) : Prop where
+  blocks : ∀ nb ∈ r.nodes, nb.2.Inv
+  holds : Holds l r.owned f n
+  head : r.nodes ≠ [] → r.head.isSome
+
+theorem count_owned (r : RArena) (a : Nat) :
+    r.owned.count a = r.head.toList.count a + (r.nodes.map (·.1)).count a + r.freeNodes.count a + r.lost.count a
+      + (r.nodes.flatMap (·.2.owned)).count a := by
+  simp only [owned, List.count_append]; omega
+
+/-- a list node for an insertion: what it costs and what it leaves -/
+theorem getNode_spec (r : RArena) (l : Ledger) (o f : List Nat) (n : Nat) (h : Holds l (r.owned ++ o) f n) :
+    (getNode r l).2.1.nodes = r.nodes ∧ (getNode r l).2.1.lost = r.lost ∧ (getNode r l).2.1.bs = r.bs ∧
+    Holds (getNode r l).2.2 ((getNode r l).1.toList ++ ((getNode r l).2.1.owned ++ o)) f n ∧
+    ((getNode r l).1.isSome → (getNode r l).2.1.head.isSome) ∧
+    (r.head.isSome → r.freeNodes ≠ [] → (getNode r l).1.isSome ∧ (getNode r l).2.2 = l) ∧
+    (r.head.isSome → (getNode r l).2.1.head.isSome) := by
+  unfold getNode
+  cases hh : r.head with
+  | some h0 =>
+    simp only
+    cases hf : r.freeNodes with
+    | cons nd rest =>
+      refine ⟨rfl, rfl, rfl, ?_, by simp [hh], fun _ _ => ⟨by simp, rfl⟩, by simp [hh]⟩
+      refine holds_congr h (fun a => ?_)
+      simp [count_owned, hh, hf, List.count_append, List.count_cons]; omega
+    | nil =>
+      simp only
+      cases ha : l.alloc with
+      | mk on l2 =>
+        cases on with
+        | none =>
+          refine ⟨rfl, rfl, rfl, ?_, by simp, fun _ hne => absurd rfl hne, by simp [hh]⟩
+          simpa using holds_alloc_none h ha
+        | some nd =>
+          refine ⟨rfl, rfl, rfl, ?_, by simp [hh], fun _ hne => absurd rfl hne, by simp [hh]⟩
+          simpa using holds_alloc h ha
+  | none =>
+    simp only
+    cases ha : l.alloc with
+    | mk oh l1 =>
+      cases oh with
+      | none =>
+        refine ⟨rfl, rfl, rfl, ?_, by simp, fun hs => by simp at hs, fun hs => by simp at hs⟩
+        simpa [ha] using holds_alloc_none h ha
+      | some h0 =>
+        have h1 := holds_alloc h ha
+        simp only
+        cases hf : r.freeNodes with
+        | cons nd rest =>
+          refine ⟨rfl, rfl, rfl, ?_, by simp, fun hs => by simp at hs, fun hs => by simp at hs⟩
+          refine holds_congr h1 (fun a => ?_)
+          simp [count_owned, hh, hf, List.count_append, List.count_cons]; omega
+        | nil =>
+          simp only
+          cases ha2 : l1.alloc with
+          | mk on l2 =>
+            cases on with
+            | none =>
+              refine ⟨rfl, rfl, rfl, ?_, by simp, fun hs => by simp at hs, fun hs => by simp at hs⟩
+              refine holds_congr (holds_alloc_none h1 ha2) (fun a => ?_)
+              simp [count_owned, hh, hf, List.count_append, List.count_cons]; omega
+            | some nd =>
+              refine ⟨rfl, rfl, rfl, ?_, by simp, fun hs => by simp at hs, fun hs => by simp at hs⟩
+              refine holds_congr (holds_alloc h1 ha2) (fun a => ?_)
+              simp [count_owned, hh, hf, List.count_append, List.count_cons]; omega
+
+theorem pushFront_spec (b : Arena) (r : RArena) (l : Ledger) (f : List Nat) (n : Nat)
+    (h : Holds l (b.owned ++ r.owned) f n) :
+    ((pushFront b r l).1 = .ok → (∃ nd, (pushFront b r l).2.1.nodes = (nd, b) :: r.nodes) ∧
+        (pushFront b r l).2.1.head.isSome ∧ Holds (pushFront b r l).2.2 (pushFront b r l).2.1.owned f n) ∧
+    ((pushFront b r l).1 ≠ .ok → (pushFront b r l).2.1.nodes = r.nodes ∧
+        Holds (pushFront b r l).2.2 (b.owned ++ (pushFront b r l).2.1.owned) f n ∧
+        (r.head.isSome → (pushFront b r l).2.1.head.isSome)) ∧
+    (pushFront b r l).1 ≠ .ub ∧ (pushFront b r l).2.1.lost = r.lost ∧ (pushFront b r l).2.1.bs = r.bs ∧
+    (r.head.isSome → r.freeNodes ≠ [] → (pushFront b r l).1 = .ok ∧ (pushFront b r l).2.2 = l) := by
+  unfold pushFront
+  obtain ⟨g1, g2, g3, g4, g5, g6, g7⟩ := getNode_spec r l b.owned f n
+    (holds_congr h (fun a => by simp [List.count_append]; omega))
+  cases hg : getNode r l with
+  | mk on rest =>
+    obtain ⟨r1, l1⟩ := rest
+    rw [hg] at g1 g2 g3 g4 g5 g6 g7
+    simp only at g1 g2 g3 g4 g5 g6 g7
+    cases on with
+    | none =>
+      refine ⟨by simp, fun _ => ⟨g1, ?_, g7⟩, by simp, g2, g3, fun hh hf => by have := (g6 hh hf).1; simp at this⟩
+      refine holds_congr g4 (fun a => ?_)
+      simp [List.count_append]; omega
+    | some nd =>
+      refine ⟨fun _ => ⟨⟨nd, by simp [g1]⟩, g5 rfl, ?_⟩, by simp, by simp, g2, g3,
+        fun hh hf => ⟨rfl, (g6 hh hf).2⟩⟩
+      refine holds_congr g4 (fun a => ?_)
+      simp [count_owned, g1, List.count_append, List.count_cons]; omega
+
+theorem create_objBlocks (n : Nat) (l l1 : Ledger) (a : Arena) (h : Arena.create n l = (some a, l1)) :
+    a.objBlocks = [] := by
+  unfold Arena.create at h
+  cases ha : l.alloc with
+  | mk ob l2 =>
+    cases ob with
+    | none => simp [ha] at h
+    | some b =>
+      simp only [ha] at h
+      cases ha2 : l2.alloc with
+      | mk oa l3 =>
+        cases oa with
+        | none => simp [ha2] at h
+        | some arr =>
+          simp only [ha2, Prod.mk.injEq, Option.some.injEq] at h
+          obtain ⟨rfl, _⟩ := h
+          have := Arena.blocksOf_replicate n
+          simpa [Arena.objBlocks, Arena.blocksOf] using this
+
+theorem ensureFront_spec (r : RArena) (l : Ledger) (f : List Nat) (n : Nat) (hi : RInv r l f n) :
+    RInv (ensureFront r l).2.1 (ensureFront r l).2.2 f n ∧ (ensureFront r l).1 ≠ .ub ∧
+    ((ensureFront r l).1 = .ok → (ensureFront r l).2.1.nodes ≠ []) := by
+  unfold ensureFront
+  split
+  · -- a new block
+    have h0 : Holds l [] (r.owned ++ f) n := holds_frame_in (by simpa using hi.holds)
+    obtain ⟨cn, cs⟩ := Arena.create_spec r.bs l (r.owned ++ f) n h0
+    cases hc : Arena.create r.bs l with
+    | mk onb l1 =>
+      cases onb with
+      | none =>
+        refine ⟨⟨hi.blocks, ?_, hi.head⟩, by simp, by simp⟩
+        exact holds_congr (holds_frame_out (cn l1 hc)) (fun a => by simp)
+      | some nb =>
+        obtain ⟨nbi, nbh, _⟩ := cs nb l1 hc
+        have hnb : Holds l1 (nb.owned ++ r.owned) f n := holds_frame_out nbh
+        obtain ⟨pok, pno, pub, plost, _, _⟩ := pushFront_spec nb r l1 f n hnb
+        simp only
+        cases hp : pushFront nb r l1 with
+        | mk o rest =>
+          obtain ⟨r2, l2⟩ := rest
+          rw [hp] at pok pno pub plost
+          simp only at pok pno pub plost
+          cases o with
+          | ub => exact absurd rfl pub
+          | ok =>
+            obtain ⟨⟨nd, hn⟩, hh, hH⟩ := pok rfl
+            refine ⟨⟨fun x hx => ?_, hH, fun _ => hh⟩, by simp, fun _ => by rw [hn]; simp⟩
+            rw [hn] at hx
+            cases List.mem_cons.mp hx with
+            | inl he => subst he; exact nbi
+            | inr hm => exact hi.blocks x hm
+          | oom =>
+            obtain ⟨hn, hH, hh⟩ := pno (by simp)
+            refine ⟨⟨fun x hx => hi.blocks x (by simpa [hn] using hx), ?_, fun hne => hh (hi.head (by simpa [hn] using hne))⟩, by simp, by simp⟩
+            refine holds_congr hH (fun a => ?_)
+            have hob := create_objBlocks r.bs l l1 nb hc
+            simp [count_owned, Arena.owned, hob, hn, List.count_append, List.count_cons]; omega
+  · rename_i hneed
+    refine ⟨hi, by simp, fun _ hnil => ?_⟩
+    simp only at hnil
+    simp [needNew, hnil] at hneed
+
+theorem constructFront_spec (x : Int) (r : RArena) (l : Ledger) (f : List Nat) (n : Nat) (hi : RInv r l f n)
+    (hne : r.nodes ≠ []) :
+    RInv (constructFront x r l).2.2.1 (constructFront x r l).2.2.2 f n ∧ (constructFront x r l).1 ≠ .ub := by
+  unfold constructFront
+  cases hn : r.nodes with
+  | nil => exact absurd hn hne
+  | cons nb rest =>
+    obtain ⟨nd, b⟩ := nb
+    simp only
+    have hbi : b.Inv := hi.blocks (nd, b) (by rw [hn]; simp)
+    have hrest : ∀ y ∈ rest, y.2.Inv := fun y hy => hi.blocks y (by rw [hn]; simp [hy])
+    have hhead : r.head.isSome := hi.head hne
+    -- the front block, everything else in the frame
+    have hsplit : ∀ a, r.owned.count a = b.owned.count a + (r.head.toList.count a + (if nd = a then 1 else 0)
+        + (rest.map (·.1)).count a + r.freeNodes.count a + r.lost.count a + (rest.flatMap (·.2.owned)).count a) := by
+      intro a; rw [count_owned, hn]; simp [List.count_cons, List.count_append]; omega
+    generalize hothers : (r.head.toList ++ (nd :: (rest.map (·.1) ++ (r.freeNodes ++ (r.lost ++ rest.flatMap (·.2.owned)))))) = others
+    have hb : Holds l b.owned (others ++ f) n := by
+      apply holds_frame_in
+      refine holds_congr hi.holds (fun a => ?_)
+      rw [hsplit a, ← hothers]; simp [List.count_append, List.count_cons]; omega
+    obtain ⟨ci, ch, cub⟩ := Arena.construct_spec x b l (others ++ f) n hbi hb
+    have hback : ∀ (nodes' : List (Nat × Arena)), (∀ a, (nodes'.map (·.1)).count a + (nodes'.flatMap (·.2.owned)).count a
+          = (if nd = a then 1 else 0) + (rest.map (·.1)).count a + (b.construct x l).2.2.1.owned.count a + (rest.flatMap (·.2.owned)).count a) →
+        Holds (b.construct x l).2.2.2 ({ r with nodes := nodes' } : RArena).owned f n := by
+      intro nodes' hc
+      refine holds_congr (holds_frame_out ch) (fun a => ?_)
+      rw [count_owned, ← hothers]
+      have := hc a
+      simp [List.count_append, List.count_cons] at this ⊢; omega
+    have hblocks : ∀ (nodes' : List (Nat × Arena)), (∀ y ∈ nodes', y = (nd, (b.construct x l).2.2.1) ∨ y ∈ rest) →
+        ∀ y ∈ nodes', y.2.Inv := by
+      intro nodes' hm y hy
+      rcases hm y hy with he | hr
+      · subst he; exact ci
+      · exact hrest y hr
+    split
+    · split
+      · refine ⟨⟨hblocks _ (fun y hy => by simpa using hy), hback _ (fun a => by simp [List.count_cons, List.count_append]; omega), fun _ => hhead⟩, by simp⟩
+      · refine ⟨⟨hblocks _ (fun y hy => by
+            simp only [List.mem_append, List.mem_singleton] at hy
+            rcases hy with hy | hy
+            · exact Or.inr hy
+            · exact Or.inl hy), hback _ (fun a => by simp [List.count_cons, List.count_append]; omega), fun _ => hhead⟩, by simp⟩
+    · exact ⟨⟨hblocks _ (fun y hy => by simpa using hy), hback _ (fun a => by simp [List.count_cons, List.count_append]; omega), fun _ => hhead⟩, cub⟩
+
+theorem create_spec (x : Int) (r : RArena) (l : Ledger) (f : List Nat) (n : Nat) (hi : RInv r l f n) :
+    RInv (create x r l).2.2.1 (create x r l).2.2.2 f n ∧ (create x r l).1 ≠ .ub := by
+  unfold create
+  obtain ⟨ei, eub, ene⟩ := ensureFront_spec r l f n hi
+  cases he : ensureFront r l with
+  | mk o rest =>
+    obtain ⟨r1, l1⟩ := rest
+    rw [he] at ei eub ene
+    simp only at ei eub ene
+    cases o with
+    | ub => exact absurd rfl eub
+    | oom => exact ⟨ei, by simp⟩
+    | ok => exact constructFront_spec x r1 l1 f n ei (ene rfl)
+
+theorem moveToFront_spec (j : Nat) (r : RArena) (l : Ledger) (f : List Nat) (n : Nat) (hi : RInv r l f n) :
+    RInv (moveToFront false j r l).2.1 (moveToFront false j r l).2.2 f n := by
+  unfold moveToFront
+  cases hn : r.nodes[j]? with
+  | none => exact hi
+  | some nb =>
+    obtain ⟨nd, b⟩ := nb
+    simp only [Bool.false_eq_true, if_false]
+    obtain ⟨hs1, _⟩ := list_set_split r.nodes j (nd, b) hn
+    have hne : r.nodes ≠ [] := by intro h0; rw [h0] at hn; simp at hn
+    have hhead := hi.head hne
+    have herase : (eraseAt j r).nodes = r.nodes.take j ++ r.nodes.drop (j + 1) ∧ (eraseAt j r).freeNodes = nd :: r.freeNodes
+        ∧ (eraseAt j r).head = r.head ∧ (eraseAt j r).lost = r.lost := by
+      unfold eraseAt; simp [hn, List.eraseIdx_eq_take_drop_succ]
+    obtain ⟨e1, e2, e3, e4⟩ := herase
+    generalize hpre : r.nodes.take j = pre at hs1 e1
+    generalize hpost : r.nodes.drop (j + 1) = post at hs1 e1
+    have hH : Holds l (b.owned ++ (eraseAt j r).owned) f n := by
+      refine holds_congr hi.holds (fun a => ?_)
+      rw [List.count_append, count_owned, count_owned, e1, e2, e3, e4, hs1]
+      simp [List.flatMap_append, List.count_append, List.count_cons]; omega
+    obtain ⟨pok, _, _, _, _, pfast⟩ := pushFront_spec b (eraseAt j r) l f n hH
+    obtain ⟨hok, _⟩ := pfast (by rw [e3]; exact hhead) (by rw [e2]; simp)
+    obtain ⟨⟨nd2, hnodes⟩, hh2, hH2⟩ := pok hok
+    refine ⟨fun y hy => ?_, hH2, fun _ => hh2⟩
+    rw [hnodes, e1] at hy
+    simp only [List.mem_cons, List.mem_append] at hy
+    rcases hy with hy | hy | hy
+    · subst hy; exact hi.blocks (nd, b) (by rw [hs1]; simp)
+    · exact hi.blocks y (by rw [hs1]; simp [hy])
+    · exact hi.blocks y (by rw [hs1]; simp [hy])
+
+/-- destroy the object in `slot` of the block at position `i`, then move the block at position `j` to the front when
+`mv` — the common shape of both scans of destroyObject -/
+theorem destroyAt_spec (i : Nat) (slot : Nat) (mv : Prop) [Decidable mv] (j : Nat) (b : Arena) (r : RArena) (l : Ledger) (f : List Nat) (n : Nat)
+    (hi : RInv r l f n) (hb : (r.nodes.map (·.2))[i]? = some b) :
+    RInv (match b.destroyObject slot l with
+          | (.ok, b1, l1) => if mv then moveToFront false j (setBlock i b1 r) l1 else (.ok, setBlock i b1 r, l1)
+          | (o, _, l1) => (o, r, l1)).2.1
+         (match b.destroyObject slot l with
+          | (.ok, b1, l1) => if mv then moveToFront false j (setBlock i b1 r) l1 else (.ok, setBlock i b1 r, l1)
+          | (o, _, l1) => (o, r, l1)).2.2 f n := by
+  have hnode : ∃ nd, r.nodes[i]? = some (nd, b) := by
+    rw [List.getElem?_map] at hb
+    cases hx : r.nodes[i]? with
+    | none => simp [hx] at hb
+    | some nb => obtain ⟨nd, b0⟩ := nb; simp [hx] at hb; exact ⟨nd, by rw [hb]⟩
+  obtain ⟨nd, hn⟩ := hnode
+  obtain ⟨hs1, hset⟩ := list_set_split r.nodes i (nd, b) hn
+  generalize hpre : r.nodes.take i = pre at hs1 hset
+  generalize hpost : r.nodes.drop (i + 1) = post at hs1 hset
+  have hbi : b.Inv := hi.blocks (nd, b) (by rw [hs1]; simp)
+  generalize hothers : (r.head.toList ++ ((pre.map (·.1) ++ nd :: post.map (·.1)) ++ (r.freeNodes ++ (r.lost ++ (pre.flatMap (·.2.owned) ++ post.flatMap (·.2.owned)))))) = others
+  have hbH : Holds l b.owned (others ++ f) n := by
+    apply holds_frame_in
+    refine holds_congr hi.holds (fun a => ?_)
+    rw [count_owned, ← hothers, hs1]
+    simp [List.flatMap_append, List.count_append, List.count_cons]; omega
+  obtain ⟨di, dh, _⟩ := Arena.destroyObject_spec slot b l (others ++ f) n hbi hbH
+  cases hd : b.destroyObject slot l with
+  | mk o rest =>
+    obtain ⟨b1, l1⟩ := rest
+    rw [hd] at di dh
+    simp only at di dh
+    have hset1 : RInv (setBlock i b1 r) l1 f n := by
+      have hsb : (setBlock i b1 r).nodes = pre ++ (nd, b1) :: post ∧ (setBlock i b1 r).head = r.head ∧
+          (setBlock i b1 r).freeNodes = r.freeNodes ∧ (setBlock i b1 r).lost = r.lost := by
+        unfold setBlock; simp [hn, hset]
+      obtain ⟨s1, s2, s3, s4⟩ := hsb
+      refine ⟨fun y hy => ?_, ?_, fun _ => ?_⟩
+      · rw [s1] at hy
+        simp only [List.mem_append, List.mem_cons] at hy
+        rcases hy with hy | hy | hy
+        · exact hi.blocks y (by rw [hs1]; simp [hy])
+        · subst hy; exact di
+        · exact hi.blocks y (by rw [hs1]; simp [hy])
+      · refine holds_congr (holds_frame_out dh) (fun a => ?_)
+        rw [count_owned, s1, s2, s3, s4, ← hothers]
+        simp [List.flatMap_append, List.count_append, List.count_cons]; omega
+      · rw [s2]; exact hi.head (by rw [hs1]; simp)
+    cases o with
+    | ok =>
+      simp only
+      split
+      · exact moveToFront_spec j _ l1 f n hset1
+      · exact hset1
+    | oom =>
+      -- Arena.destroyObject never throws: the ledger is the one it was given
+      simp only
+      have hl : l1 = l := by
+        have := hd; unfold Arena.destroyObject at this
+        split at this <;> simp at this
+      rw [hl]; exact hi
+    | ub =>
+      simp only
+      have hl : l1 = l := by
+        have := hd; unfold Arena.destroyObject at this
+        split at this <;> simp at this
+        exact this.2.symm
+      rw [hl]; exact hi
+
+theorem destroyObject_balance (blk slot : Nat) (r : RArena) (l : Ledger) (f : List Nat) (n : Nat) (hi : RInv r l f n) :
+    RInv (destroyObject false blk slot r l).2.1 (destroyObject false blk slot r l).2.2 f n := by
+  unfold destroyObject
+  simp only
+  split
+  · rename_i i hfi
+    split
+    · rename_i b hb
+      exact destroyAt_spec i slot (i ≠ 0) i b r l f n hi hb
+    · exact hi
+  · split
+    · exact hi
+    · rename_i j hfj
+      split
+      · rename_i b hb
+        exact destroyAt_spec (((r.nodes.map (·.2)).takeWhile available).length + j) slot
+          (((r.nodes.map (·.2)).takeWhile available).length + j + 1 ≠ (r.nodes.map (·.2)).length)
+          ((r.nodes.map (·.2)).takeWhile available).length b r l f n hi hb
+      · exact hi
+
+/-- `~ReusableArenaAllocator`: every block destroyed (repaired block destructor), the list nodes and the sentinel freed -/
+theorem destroy_blocks_fold (nodes : List (Nat × Arena)) (l : Ledger) (o f : List Nat) (n : Nat)
+    (hb : ∀ nb ∈ nodes, nb.2.Inv) (h : Holds l (nodes.flatMap (·.2.owned) ++ o) f n) :
+    ∃ l1, nodes.foldl destroyStep (.ok, l) = (.ok, l1) ∧ Holds l1 o f n := by
+  induction nodes generalizing l with
+  | nil => exact ⟨l, rfl, by simpa using h⟩
+  | cons nb rest ih =>
+    simp only [List.foldl_cons, destroyStep]
+    have hnb : Holds l nb.2.owned ((rest.flatMap (·.2.owned) ++ o) ++ f) n :=
+      holds_frame_in (by simpa [List.flatMap_cons, List.append_assoc] using h)
+    obtain ⟨d1, d2⟩ := Arena.destroy_spec nb.2 l _ n (hb nb (List.mem_cons_self ..)) hnb
+    cases hd : nb.2.destroy true l with
+    | mk o1 l1 =>
+      rw [hd] at d1 d2
+      simp only at d1 d2
+      subst d1
+      exact ih l1 (fun x hx => hb x (List.mem_cons_of_mem _ hx))
+        (holds_congr (holds_frame_out d2) (fun a => by simp))
+
+theorem destroy_balance (r : RArena) (l : Ledger) (f : List Nat) (n : Nat) (hi : RInv r l f n) :
+    (destroy r l).1 = .ok ∧ Holds (destroy r l).2 r.lost f n := by
+  unfold destroy
+  obtain ⟨l1, hf, hH⟩ := destroy_blocks_fold r.nodes l (r.nodes.map (·.1) ++ (r.freeNodes ++ (r.head.toList ++ r.lost))) f n hi.blocks
+    (holds_congr hi.holds (fun a => by simp [count_owned, List.count_append]; omega))
+  dsimp only
+  rw [hf]
+  refine ⟨rfl, ?_⟩
+  cases hh : r.head with
+  | none =>
+    simp only
+    apply holds_freeAll
+    apply holds_freeAll
+    simpa [hh] using hH
+  | some h0 =>
+    simp only
+    apply holds_free
+    apply holds_freeAll
+    apply holds_freeAll
+    simpa [hh] using hH
 
 end RArena
 end XalanModel.C19
